@@ -75,6 +75,9 @@ fn template() -> Tpl {
     let r = idm.write(ct, |w| {
         w.qs_write.internal_create(vec![group_entry("appgrp", Uuid::from_u128(APPGRP), &[person_uuid(P0)])])?;
         w.qs_write.internal_create(vec![app])?;
+        // the service account (API token) may read access control profiles natively: they must
+        // still never come back over LDAP
+        w.qs_write.internal_modify_uuid(UUID_IDM_ACCESS_CONTROL_ADMINS, &ModifyList::new_list(vec![Modify::Present(Attribute::Member, Value::Refer(person_uuid(S0)))]))?;
         let ent = w.qs_write.internal_search_uuid(person_uuid(P0))?;
         let ident = Identity::from_impersonate_entry_readwrite(ent);
         w.set_unix_account_password(&UnixPasswordChangeEvent::from_parts(ident, person_uuid(P0), PW_GOOD.to_string())?)
@@ -321,7 +324,10 @@ fn run_cfg(t: &Tpl, allow_unix: bool, in_app_group: bool) -> String {
                     continue;
                 };
                 for (f, attrs) in searches() {
-                    let r = run.op(ServerOps::Search(SearchRequest { msgid: 2, base: BASE.into(), scope: LdapSearchScope::Subtree, filter: f.clone(), attrs: attrs.clone() }), Some(tok.clone()));
+                  for scope in [LdapSearchScope::Subtree, LdapSearchScope::OneLevel, LdapSearchScope::Children] {
+                    let subtree = matches!(scope, LdapSearchScope::Subtree);
+                    let r = run.op(ServerOps::Search(SearchRequest { msgid: 2, base: BASE.into(), scope, filter: f.clone(), attrs: attrs.clone() }), Some(tok.clone()));
+                    nops += 1;
                     let Ok(LdapResponseState::MultiPartResponse(m)) = r else { continue };
                     let (_, ents) = render(&m);
                     // native: same filter, all attributes
@@ -334,7 +340,7 @@ fn run_cfg(t: &Tpl, allow_unix: bool, in_app_group: bool) -> String {
                         let uuid = eattrs.get("entryuuid").or_else(|| eattrs.get("uuid")).and_then(|v| v.iter().next().cloned());
                         let classes: BTreeSet<String> = eattrs.get("objectclass").or_else(|| eattrs.get("class")).cloned().unwrap_or_default();
                         if classes.iter().any(|c| ["attributetype", "classtype", "access_control_profile"].contains(&c.as_str())) {
-                            viol.push(format!("hidden_entry_returned\u{2}[{cfgs}] {which} token search {f:?} returned the schema / access control entry {dn}"));
+                            viol.push(format!("hidden_entry_returned\u{2}[{cfgs}] {which} token search {f:?} (scope {}) returned the schema / access control entry {dn}", if subtree { "subtree" } else { "one level / children" }));
                         }
                         let Some(u) = uuid else { continue };
                         match native.get(&u) {
@@ -349,6 +355,8 @@ fn run_cfg(t: &Tpl, allow_unix: bool, in_app_group: bool) -> String {
                             }
                         }
                     }
+                    let _ = subtree;
+                  }
                 }
             }
         }
